@@ -192,6 +192,13 @@ def run_case(case):
                                                     'lineTerminator': '\n', 'skipInitialSpace': True, 'header': True}))
     if foreign:
         cov['config']['incoming_dialect'] = 1
+    if len(res) > 1 and boot.rng(case['seed'], 'C03', 'stem', case['idx']).random() < 0.2:
+        # resources whose paths differ only in their extension (data/t.csv, data/t.tsv, data/t.json): each still gets a
+        # data file of its own
+        for r, ext in zip(res, ['.csv', '.tsv', '.json']):
+            steps.append(d.update_resource(r['name'], path='data/t' + ext))
+        cov['config']['paths_differ_only_in_extension'] = 1
+        cfg['paths_differ_only_in_extension'] = True
     steps.append(d.dump_to_path(out, **opts) if kind == 'path' else d.dump_to_zip(out, **opts))
     dumped = lab.run(steps, validate=True)
     sample = {'config': cfg, 'rows': gen.render(res[0]['rows'][:3], 600)}
@@ -248,7 +255,9 @@ def run_case(case):
                     counters[counter] += 1
                     if cell_eq(ev, gv, fmt, t):
                         continue
-                    if ev == '' and gv is None:
+                    if ev == '' and gv is None and (not r['missing'] or '' in r['missing']):
+                        # (only where '' is the marker of null: declared by the schema itself - the Table Schema default -
+                        # or, with an EMPTY list of markers, the one the dumper has to record to write nulls at all)
                         mech = 'empty_string_reads_null'
                     elif isinstance(ev, str) and isinstance(gv, str) and '\r\n' in ev and \
                             gv == ev.replace('\r\n', '\n'):
